@@ -1186,7 +1186,17 @@ func runTermuiPull(dir string) (screen, stderr string, exited, exercised bool) {
 	if out, err := tm("send-keys", "-t", "t", "i"); err != nil {
 		return "tmux send-keys: " + out, "", false, false
 	}
-	pane, ok = wait(func(p string) bool { return strings.Contains(p, "done") })
+	// the pull popup ends with a line that reads just "done" (the fetch progress shown before the merge may hold
+	// "done." inside a line: not the end)
+	pane, ok = wait(func(p string) bool {
+		for _, line := range strings.Split(p, "\n") {
+			t := strings.TrimFunc(line, func(r rune) bool { return r == ' ' || r == '\t' || r > 0x2000 })
+			if t == "done" {
+				return true
+			}
+		}
+		return false
+	})
 	b, _ := os.ReadFile(errFile)
 	if _, err := os.Stat(exitFile); err == nil {
 		return pane, string(b), true, true
